@@ -1,7 +1,7 @@
 use crate::{
     cfg::Cfg,
     parser::{Label, ParserNode},
-    passes::{DiagnosticManager, LintError, LintPass},
+    passes::{DiagnosticLocation, DiagnosticManager, LintError, LintPass},
 };
 use uuid::Uuid;
 
@@ -23,7 +23,7 @@ impl LintPass for OverlappingFunctionCheck {
             if node.functions().len() > 1 && node.is_function_entry_with_func().is_some() {
                 // HACK: Create a dummy label with the same name
                 let labels = node.labels();
-                let labels = labels
+                let mut labels = labels
                     .iter()
                     .map(|l| Label {
                         name: l.clone(),
@@ -31,12 +31,17 @@ impl LintPass for OverlappingFunctionCheck {
                         token: l.raw_token().clone(),
                     })
                     .collect::<Vec<_>>();
+                // The labels and functions come from hash sets: report on the
+                // first label in the source, list the functions in program order
+                labels.sort_by_key(|l| l.token.range());
                 let label = labels.first();
+                let mut functions = node.functions().clone().into_iter().collect::<Vec<_>>();
+                functions.sort_by_key(|f| f.entry().order());
 
                 if let Some(l) = label {
                     errors.push(LintError::NodeInManyFunctions(
                         ParserNode::Label(l.clone()),
-                        node.functions().clone().into_iter().collect::<Vec<_>>(),
+                        functions,
                     ));
                 }
             }
